@@ -190,6 +190,16 @@ class CodecCheck:
         ucases = absyn.universe(self.universe_fields[1] if thorough else self.universe_fields[0])
         for m in self.mc_models:
             run_mc(rep, m, ucases)
+        if "MC_Writer" in self.mc_models and thorough:
+            # negative control: the writer of seeded change S03 (no alignment for bit-fields at a dynamic offset) must violate WriterIsEnc
+            p = write_universe(ucases)
+            try:
+                neg = tlc.run(os.path.join(MC, "MC_Writer.tla"), os.path.join(MC, "MC_Writer_neg.cfg"), env={"UNIVERSE_FILE": p}, workers=16, heap="16g")
+            finally:
+                os.unlink(p)
+            if "WriterIsEnc" not in neg.violated:
+                raise MachineryError("negative control MC_Writer_neg did not violate WriterIsEnc: the model is vacuous")
+            rep.extra["negative_control_writer"] = "MC_Writer_neg (no alignment for bit-fields at a dynamic offset) violates WriterIsEnc as expected"
         # E2 (a): the same universe through the real library
         if thorough:
             sub = ucases
